@@ -173,6 +173,9 @@ def block_term(block, env, mutated=frozenset()):
         if s.get("s") == "Let" and "init" in s and "els" not in s:
             vt = term(s["init"], env, mutated)
             bind_pattern(s["pat"], vt, env)
+        elif s.get("s") == "Let" and "init" in s:
+            # `let PAT = init else { diverges }`: past the statement the pattern matched, so its bindings are parts of init
+            bind_pattern(s["pat"], term(s["init"], env, mutated), env)
         elif s.get("s") == "Let":
             bind_pattern(s["pat"], None, env)
     if "expr" in block:
@@ -267,7 +270,7 @@ def env_at(parents, target, mutated=frozenset(), base=None):
                     continue
                 sk = _span_key(st.get("span"))
                 if tk and sk and sk[0] == tk[0] and sk[2] <= tk[1]:
-                    if "init" in st and "els" not in st:
+                    if "init" in st:
                         bind_pattern(st["pat"], term(st["init"], env, mutated), env)
                     else:
                         bind_pattern(st["pat"], None, env)
